@@ -8,6 +8,11 @@
 //!   sort <expected> <id:dist>…                        -> "ok ids…" | "err notenough"   (sort_peers_by_address)
 //!   inrange <range> <id:dist>…                        -> "ok ids…"                      (get_peers_in_range)
 //!   closest <num|-> <range|-> <id:dist>…              -> "ok ids…"                      (Node::calculate_get_closest_peers)
+//!   proofresp <difficulty> <id:dist>…                  -> "ok ids…"   (Node::handle_query(GetChunkExistenceProof) = respond_x_closest_record_proof over a node
+//!                                                         holding exactly the listed CHUNK records; ids index the world's chunk addresses; target = the key)
+//!   derive-range <nonfull> <full> <id:dist>…           -> "ok <range>" | "none"   (the set_farthest_record_interval arm of a real, RUNNING SwarmDriver whose
+//!                                                         routing table holds exactly the listed peers; the range is read back through GetLocalQuotingMetrics;
+//!                                                         target 40 = the node itself; <nonfull> <full> = the bucket statistics the estimate starts from)
 //!   replcand <range|-> <id:dist>…                      -> "ok ids…"   (SwarmDriver::get_replicate_candidates on a real, never-run node
 //!                                                         driver whose routing table holds exactly the listed peers; target 40 = the node itself)
 use ant_evm::U256;
@@ -44,6 +49,8 @@ struct World {
     addrs: Vec<(String, NetworkAddress, Vec<u8>, Vec<u8>)>, // kind, address, raw, xorname
     /// replay support: address bytes by hex
     by_bytes: BTreeMap<String, NetworkAddress>,
+    /// the chunk records a node may hold (`proofresp`)
+    chunks: Vec<NetworkAddress>,
 }
 
 fn rand_peer(rng: &mut Rng) -> PeerId {
@@ -207,6 +214,78 @@ fn exec(w: &World, line: &str, target: &NetworkAddress) -> String {
             rt.shutdown_background();
             res
         }
+        ["proofresp", d, rest @ ..] => {
+            let held: Vec<NetworkAddress> = rest.iter().map(|t| w.chunks[t.split(':').next().expect("id").parse::<usize>().expect("id")].clone()).collect();
+            let difficulty: usize = d.parse().expect("difficulty");
+            let rt = tokio::runtime::Builder::new_current_thread().enable_all().build().expect("rt");
+            let key = target.clone();
+            rt.block_on(async move {
+                let (ntx, _nrx) = tokio::sync::mpsc::channel(16);
+                let (ltx, mut lrx) = tokio::sync::mpsc::channel(64);
+                let net = ant_networking::Network::new(ntx, ltx, w.peers[0], Keypair::generate_ed25519());
+                let held2 = held.clone();
+                let answer = tokio::spawn(async move {
+                    while let Some(cmd) = lrx.recv().await {
+                        match cmd {
+                            ant_networking::verif::LocalSwarmCmd::GetAllLocalRecordAddresses { sender } => {
+                                let _ = sender.send(held2.iter().map(|a| (a.clone(), ant_protocol::storage::RecordType::Chunk)).collect());
+                            }
+                            ant_networking::verif::LocalSwarmCmd::GetLocalRecord { key, sender } => {
+                                let v = key.to_vec();
+                                let _ = sender.send(Some(libp2p::kad::Record { key, value: v, publisher: None, expires: None }));
+                            }
+                            _ => {}
+                        }
+                    }
+                });
+                let q = ant_protocol::messages::Query::GetChunkExistenceProof { key, nonce: 7, difficulty };
+                let resp = VerifNode::handle_query(&net, q, ant_evm::RewardsAddress::default()).await;
+                answer.abort();
+                match resp {
+                    ant_protocol::messages::Response::Query(ant_protocol::messages::QueryResponse::GetChunkExistenceProof(v)) => {
+                        let ids: Vec<String> = v.iter().map(|(a, _)| w.chunks.iter().position(|c| c == a).expect("held chunk").to_string()).collect();
+                        if ids.is_empty() { "ok".into() } else { format!("ok {}", ids.join(" ")) }
+                    }
+                    other => format!("unexpected {other:?}").chars().take(40).collect(),
+                }
+            })
+        }
+        ["derive-range", _nf, _fl, rest @ ..] => {
+            let peers = parse_peers(w, rest);
+            let rt = tokio::runtime::Builder::new_current_thread().enable_all().build().expect("rt");
+            let wait_none = if peers.len() >= 7 { 3000 } else { 400 };
+            let res = rt.block_on(async {
+                let dir = tempfile::tempdir().expect("tempdir");
+                let kp = Keypair::ed25519_from_bytes(w.node_sk).expect("ed25519");
+                let mut b = ant_networking::NetworkBuilder::new(kp, true);
+                b.listen_addr("127.0.0.1:0".parse().expect("addr"));
+                let (network, _events, mut driver) = b.build_node(dir.path().to_path_buf()).expect("build_node");
+                for (i, p) in peers.iter().enumerate() {
+                    let addr: libp2p::Multiaddr = format!("/ip4/10.0.0.{}/udp/{}/quic-v1", i + 1, 12000 + i).parse().expect("multiaddr");
+                    if !ant_networking::verif::event::add_address(&mut driver, p, addr) {
+                        return format!("refused {i}");
+                    }
+                }
+                // the real run loop: its first pass through the interval arm computes and sets the range
+                let run = tokio::spawn(driver.run());
+                let key = NetworkAddress::from_peer(w.peers[0]).to_record_key();
+                let start = std::time::Instant::now();
+                let mut out = "none".to_string();
+                while start.elapsed() < std::time::Duration::from_millis(wait_none) {
+                    if let Ok((m, _)) = network.get_local_quoting_metrics(key.clone()).await {
+                        if let Some(d) = m.network_density {
+                            out = format!("ok {}", U256::from_be_bytes(d));
+                            break;
+                        }
+                    }
+                    tokio::time::sleep(std::time::Duration::from_millis(5)).await;
+                }
+                run.abort();
+                out
+            });
+            rt.shutdown_background();
+            res
+        }
         ["closest", n, r, rest @ ..] => {
             let peers: Vec<(PeerId, Vec<libp2p::Multiaddr>)> = parse_peers(w, rest).into_iter().map(|p| (p, vec![])).collect();
             let num = if *n == "-" { None } else { Some(n.parse::<usize>().expect("n")) };
@@ -338,6 +417,39 @@ fn oracle(line: &str, r: &str, out: &mut Out, strict: bool) {
                 out.oracle_fail("replicate-candidates", line, &format!("got {got:?}, the peers within range of the target (or the 5 nearest) are {expect:?}"));
             }
         }
+        ["proofresp", dfc, rest @ ..] => {
+            // the min(difficulty, 5) held chunks nearest the key, ascending
+            let mut d = dists(rest);
+            d.sort_by(|a, b| a.0.cmp(&b.0));
+            let k = dfc.parse::<usize>().expect("d").min(5);
+            let expect: Vec<String> = d.iter().take(k).map(|(_, i)| i.clone()).collect();
+            if got != expect {
+                out.oracle_fail("challenge-response-nearest", line, &format!("got {got:?}, the {k} held chunks nearest the key are {expect:?}"));
+            }
+        }
+        ["derive-range", _, _, rest @ ..] => {
+            // with more than CLOSE_GROUP_SIZE + 1 peers known (and an estimate above CLOSE_GROUP_SIZE): the larger of the
+            // density estimate (2^256-1)/(n+1)*5 and the XOR distance to the (CLOSE_GROUP_SIZE+1)-th nearest peer; else nothing
+            let mut d = dists(rest);
+            d.sort_by(|a, b| a.0.cmp(&b.0));
+            let expect = if d.len() <= 6 {
+                "none".to_string()
+            } else {
+                let max = (BigUint::from(1u8) << 256) - BigUint::from(1u8);
+                let dens = (max / BigUint::from(d.len() as u64 + 1)) * BigUint::from(5u8);
+                let kth = d[5].0.clone();
+                out.count(if dens > kth { "derive-range:density-term-wins" } else { "derive-range:neighbour-distance-wins" });
+                format!("ok {}", if dens > kth { dens } else { kth })
+            };
+            if r != expect {
+                out.oracle_fail("range-is-distance-to-kth", line, &format!("responsible range `{r}`, expected `{expect}`"));
+            }
+            if let Some(v) = r.strip_prefix("ok ") {
+                if d.len() > 6 && BigUint::parse_bytes(v.as_bytes(), 10).map(|b| b < d[5].0).unwrap_or(true) {
+                    out.oracle_fail("range-covers-close-group", line, "the range is below the distance to the neighbour it is derived from");
+                }
+            }
+        }
         ["closest", n, range, rest @ ..] => {
             let d = dists(rest);
             if *range == "-" && *n != "-" {
@@ -374,7 +486,7 @@ fn main() {
         }
     }
     let mut rng = Rng::new(seed);
-    let mut w = World { node_sk: [0u8; 32], peers: (0..24).map(|_| rand_peer(&mut rng)).collect(), addrs: vec![], by_bytes: BTreeMap::new() };
+    let mut w = World { node_sk: [0u8; 32], peers: (0..24).map(|_| rand_peer(&mut rng)).collect(), addrs: vec![], by_bytes: BTreeMap::new(), chunks: vec![] };
     for _ in 0..40 {
         let a = rand_addr(&mut rng);
         w.by_bytes.insert(hex(&a.1.as_bytes()), a.1.clone());
@@ -391,6 +503,17 @@ fn main() {
     for p in w.peers.clone() {
         let a = NetworkAddress::from_peer(p);
         w.by_bytes.insert(hex(&a.as_bytes()), a);
+    }
+    // the chunk records of `proofresp` (drawn after everything else so the rest of the world is unchanged)
+    {
+        let mut crng = Rng::new(seed ^ 0x5eed_c11);
+        for _ in 0..60 {
+            let mut x = [0u8; 32];
+            x.copy_from_slice(&crng.bytes(32));
+            let a = NetworkAddress::from_chunk_address(ChunkAddress::new(XorName(x)));
+            w.by_bytes.insert(hex(&a.as_bytes()), a.clone());
+            w.chunks.push(a);
+        }
     }
     // every peer-list op of one run refers to one target address (chosen from the seed): target index on a "target" line
     let mut target = w.addrs[0].1.clone();
@@ -488,6 +611,42 @@ fn main() {
                 }
                 let bound = rng.pick(&bounds).clone();
                 let count = rng.below(npeers as u64 + 3);
+                if rng.chance(1, 14) {
+                    // storage challenge, responder side: a node holding some of the world's chunks is asked for the
+                    // `difficulty` nearest the key
+                    let nheld = *rng.pick(&[0usize, 1, 3, 5, 6, 12, 40, 60]);
+                    let mut cidx: Vec<usize> = (0..w.chunks.len()).collect();
+                    rng.shuffle(&mut cidx);
+                    cidx.truncate(nheld);
+                    let ht = digest(&target.as_bytes());
+                    let line: Vec<String> = cidx.iter().map(|i| format!("{}:{}", i, xor(&ht, &digest(&w.chunks[*i].as_bytes())))).collect();
+                    let mut u = cidx.clone();
+                    u.sort();
+                    let b: Vec<String> = u.iter().map(|i| format!("{i}={}", hex(&w.chunks[*i].as_bytes()))).collect();
+                    run(&w, &format!("bind {} {}", hex(&target.as_bytes()), b.join(" ")).trim_end().to_string(), &target, &mut out);
+                    let dfc = *rng.pick(&[0usize, 2, 3, 4, 5, 6, 9]);
+                    run(&w, &format!("proofresp {dfc} {}", line.join(" ")).trim_end().to_string(), &target, &mut out);
+                    continue;
+                }
+                if rng.chance(1, 40) {
+                    // the producer of the range: a running node driver whose routing table holds these peers
+                    target = w.addrs[40].1.clone();
+                    out.line("target 40".to_string(), "bad-op");
+                    let mut uniq = idx.clone();
+                    uniq.sort();
+                    uniq.dedup();
+                    if uniq.len() < 7 && rng.chance(2, 3) {
+                        continue; // nothing is set below 7 peers; each such case costs a time-out
+                    }
+                    let b: Vec<String> = uniq.iter().map(|i| format!("{i}={}", hex(&NetworkAddress::from_peer(w.peers[*i]).as_bytes()))).collect();
+                    let line = format!("derive-range {} 0 {}", uniq.len(), peers_line(&w, &target, &uniq)).trim_end().to_string();
+                    let probe = catch_unwind(AssertUnwindSafe(|| exec(&w, &line, &target))).unwrap_or_else(|_| "panic".into());
+                    if !probe.starts_with("refused") {
+                        run(&w, &format!("bind {} {}", hex(&target.as_bytes()), b.join(" ")).trim_end().to_string(), &target, &mut out);
+                        run(&w, &line, &target, &mut out);
+                    }
+                    continue;
+                }
                 if replcand {
                     // distinct peers only (a routing table holds a peer once)
                     let mut uniq = idx.clone();
